@@ -48,9 +48,9 @@ class _Budget:
 
 def _gen_q(rng, field, opts, counter):
     kind = rng.wpick(opts["qkinds"])
-    if field in ("xy", "xyc") and kind in ("str", "selfc", "selfg", "selfk"):
+    if field in ("xy", "xyc") and kind in ("str", "selfc", "selfg", "selfk", "selfkw", "selfnest", "selfattr"):
         kind = "lambda"
-    if kind == "selfk" and field not in ("x", "y"):
+    if kind in ("selfk", "selfattr") and field not in ("x", "y"):
         kind = "selfc"
     q = {"f": field, "kind": kind}
     if kind == "selfk":
@@ -361,6 +361,18 @@ def _mk_q(q, node, qreg=None):
         # (one source text for all of them - `[Minimize(lambda d, k=k: d[F] * k) for k in scales]` - so the code objects are
         # byte-identical and only the default differs)
         return eval('lambda d, k=K: getattr(d[F], "values", d[F]) * k', {"K": q.get("k", 1), "F": f, "getattr": getattr})
+    if kind == "selfkw":
+        # the loop idiom again, the bound value a keyword-only default (`lambda d, *, f=f: d[f]`)
+        return eval('lambda d, *, f=%r: getattr(d[f], "values", d[f])' % f, {})
+    if kind == "selfnest":
+        # the global is only read inside a nested scope (an inner lambda here; a generator expression does the same)
+        return eval('lambda d: (lambda: getattr(d[FIELD], "values", d[FIELD]))()', {"FIELD": f, "getattr": getattr})
+    if kind == "selfattr":
+        # reads an *attribute* called `math` (of a picklable default argument): attribute names and the names of globals
+        # share co_names, and `math` happens to be a global of the module that rebuilds the function
+        import types as _types
+
+        return eval('lambda d, f=%r, o=O: getattr(d[f], "values", d[f]) * o.math' % f, {"O": _types.SimpleNamespace(math=1.0)})
     if kind == "selfg":
         # the field it reads is a global of the function: same code object, different referenced globals
         return eval('lambda d: getattr(d[FIELD], "values", d[FIELD])', {"FIELD": f, "getattr": getattr})
